@@ -347,7 +347,7 @@ pub fn run(tier: &Tier) -> i32 {
     };
     let mut cov = Coverage::default();
     cov.exhaustive = true;
-    cov.rule = format!("all 32 string/REP spellings of syntax.md x both cases, assembled by the real Preprocessor; the emitted line is re-issued to the real Interpreter exactly as the driver does until it stops answering REPEAT; for every CX in 0..={} (plus spot values), DF in {{0,1}}, 7 (DS,ES) pairs incl. wrap at 1 MB, aliasing segments, segments whose bits overlap the pointer bits, both in the last paragraph, 4-16 (SI,DI) placements incl. overlap by 0,1,2,3 bytes in both directions and crossing 0xFFFF, and for CMPS/SCAS every position of the first terminating element (and none) x initial ZF; final state (registers, flags, whole memory) compared with the whole-instruction reference; CMPS/SCAS single steps for every pair of byte elements and for word elements in 8 fixed relations for every 16-bit x; and every REPEAT answer must decrement CX by exactly one; 8 programs through the CLI binary Histories: every sequence of up to 3 (thorough 4) instructions over the property's instructions plus a 21-instruction context alphabet (register, memory, stack and flag traffic, data-label operands, DS/ES loaded by pop and by mov), with at least one of the property's instructions, as ONE program on ONE machine and ONE Interpreter object from 3 initial states, compared with the reference after every step (whole memory on every 16th run)", maxcx);
+    cov.rule = format!("all 32 string/REP spellings of syntax.md x both cases, assembled by the real Preprocessor; the emitted line is re-issued to the real Interpreter exactly as the driver does until it stops answering REPEAT; for every CX in 0..={} (plus spot values), DF in {{0,1}}, 7 (DS,ES) pairs incl. wrap at 1 MB, aliasing segments, segments whose bits overlap the pointer bits, both in the last paragraph, 4-16 (SI,DI) placements incl. overlap by 0,1,2,3 bytes in both directions and crossing 0xFFFF, and for CMPS/SCAS every position of the first terminating element (and none) x initial ZF; final state (registers, flags, whole memory) compared with the whole-instruction reference; CMPS/SCAS single steps for every pair of byte elements and for word elements in 8 fixed relations for every 16-bit x; and every REPEAT answer must decrement CX by exactly one; 8 programs through the CLI binary Histories: every sequence of up to 3 (thorough 4) instructions over the property's instructions plus a 22-instruction context alphabet (register, memory, stack and flag traffic, data-label operands, DS/ES loaded by pop and by mov), with at least one of the property's instructions, as ONE program on ONE machine and ONE Interpreter object from 3 initial states, compared with the reference after every step (whole memory on every 16th run)", maxcx);
     cov.bounds = json!({"max_cx_exhaustive": maxcx, "segment_pairs": 7, "sequence_depth": seq_depth, "sequences": seq.sequences, "sequence_steps": seq.steps, "sequence_whole_memory_audits": seq.audits, "tier": tier.name()});
     cov.assumptions = common_assumptions();
     cov.cli_runs = CLI_RUNS.load(Ordering::Relaxed);
